@@ -72,8 +72,8 @@ CLAIMS = {
          "delimiters; raw triple-quoted literals verbatim for every body). The whole path from source text is proved for every style - one-quote and "
          "triple-quoted strings and bytes, raw one-quote and raw triple-quoted strings (C12_string_compiles / C12_bytes_compiles / C12_raw_compiles): the lexer "
          "model takes the spelling as ONE STRING / BYTES token (scanner lemmas over escape sequences, for the short and the long scanner, raw and not), the "
-         "parser makes a literal of it, and compile returns the literal expression holding exactly the string / the bytes. Not covered by theorems: raw bytes "
-         "literals and raw bodies containing the quote character. "
+         "parser makes a literal of it, and compile returns the literal expression holding exactly the string / the bytes. Raw bytes literals compile to the UTF-8 of their body "
+         "(C12_raw_bytes_compile), and raw triple-quoted bodies may contain the quote character wherever three consecutive quotes do not end the literal early (C12_raw_quotes_compile). "
          "The run checks, on the implementation, that each literal denotes the intended characters for every escape in every style and for random "
          "strings in all 16 styles, and compares with the model. Known finding K01: raw triple-quoted literals containing U+0000/U+10FFFF are "
          "rejected (ANTLR runtime wildcard)."),
